@@ -37,6 +37,16 @@ Theorem builtin_flags : forall base local remote,
 Proof. exact RenderProofs.builtin_flags. Qed.
 Print Assumptions builtin_flags.
 
+(* flagging for the built-in renderer: a position rewritten by both sides to different fresh lines gives status 1 with the
+   local variant in the local branch and the remote variant in the remote branch of the conflict block *)
+Theorem builtin_flags_variants : forall base local remote x y,
+  In (x, y) (clashes base local remote) ->
+  snd (builtin_merge_render base local remote) = 1%Z /\
+  let out := map chomp (format_merge_render_lines (splitlines base) (splitlines local) (splitlines remote)) in
+  In x (fst (branches Outside out)) /\ In y (snd (branches Outside out)).
+Proof. exact RenderProofs.builtin_flags_variants. Qed.
+Print Assumptions builtin_flags_variants.
+
 (* ---- resolve_strategy_inline_source, any text-merge tool whose answer to THIS call meets the contract *)
 Theorem inline_source_survival : forall tool base local remote d x,
   resolve_strategy_inline_source tool base local remote = Some d ->
